@@ -591,6 +591,32 @@ theorem run_append (lk : Bool) (who : Nat → Caller) (cr : Nat → Bool) (s : S
   | cons i a ih => exact ih _
 
 
+/-! ### reconnects do not touch the machine -/
+
+theorem inv_stepMv (who : Nat → Caller) (cr : Nat → Bool) (s : St) (m : Mv) (h : Inv who cr s) :
+    Inv who cr (stepMv true false who cr s m) := by
+  cases m with
+  | move i => exact inv_step who cr s i h
+  | reconnect => exact h
+
+theorem inv_runMv (who : Nat → Caller) (cr : Nat → Bool) (s : St) (ms : List Mv) (h : Inv who cr s) :
+    Inv who cr (runMv true false who cr s ms) := by
+  induction ms generalizing s with
+  | nil => exact h
+  | cons m ms ih => exact ih _ (inv_stepMv who cr s m h)
+
+/-- a timeline with reconnects is the same machine run as the timeline without them -/
+def movesOf : List Mv → List Nat
+  | [] => []
+  | .move i :: ms => i :: movesOf ms
+  | .reconnect :: ms => movesOf ms
+
+theorem runMv_eq_run (who : Nat → Caller) (cr : Nat → Bool) (s : St) (ms : List Mv) :
+    runMv true false who cr s ms = run true who cr s (movesOf ms) := by
+  induction ms generalizing s with
+  | nil => rfl
+  | cons m ms ih => cases m <;> simp [runMv, stepMv, movesOf, run, ih]
+
 /-! ### what a step does to the other callers and to the entries -/
 
 theorem shape_pc_other {who cr s i s'} (h : Shape who cr s i s') (j : Nat) (hj : j ≠ i) : s'.pc j = s.pc j := by
@@ -718,6 +744,10 @@ theorem applyEv_spec (who : Nat → Caller) (cr : Nat → Bool) (r r' : Replay) 
       obtain ⟨x, y, z, w⟩ := settle_spec who cr _ _ _ h1 he
       exact ⟨x, y, by simp [frameAddrs, z], by simp [getAddrs, w]⟩
     · cases he
+  | reconnect =>
+    simp only [applyEv] at he
+    obtain ⟨x, y, z, w⟩ := settle_spec who cr _ _ _ h he
+    exact ⟨x, y, by simp [frameAddrs, z], by simp [getAddrs, w]⟩
 
 /-- the events applied one after the other; `none` = not accepted -/
 def runEvs (who : Nat → Caller) (cr : Nat → Bool) : Replay → List Ev → Option Replay
